@@ -256,7 +256,7 @@ theorem specSearch_ok (g : Ghost) (s : State) (sd : Int) (r : Req) (h : Refines 
           cases hOo : O with
           | none => simp [hnone hOo]
           | some c =>
-            obtain ⟨hpage, hprog⟩ := hsome c hOo
+            obtain ⟨hpage, hprog, _⟩ := hsome c hOo
             simp only
             have : D.map (·.id) = ((vis s p).filter (fun e => decide (e.ts ≥ c))).map (·.id) := by
               rw [← hpage]
